@@ -39,6 +39,17 @@ fn main() {
                 .join()
                 .unwrap_or(2)
         }
+        "c20child" if args.len() >= 3 => {
+            // child of a C20 case: run the batch encoded by the hex stream concurrently, print digests
+            let h = args[2].clone();
+            let bytes: Vec<u8> = (0..h.len() / 2).filter_map(|i| u8::from_str_radix(&h[2 * i..2 * i + 2], 16).ok()).collect();
+            std::thread::Builder::new()
+                .stack_size(1 << 28)
+                .spawn(move || props::c20::child_main(&bytes))
+                .expect("spawn")
+                .join()
+                .unwrap_or(2)
+        }
         "samples" if args.len() >= 4 => {
             // samples <ID> <n>: print the sample description of n non-trivial generated cases, one
             // JSON object per line (used by tools_corpus.py to write libFuzzer seed corpora)
